@@ -368,10 +368,21 @@ def _run(ctx, rng, big, events):
                 req = nreq
                 if rng.random() < 0.5:
                     c = c0
-            ctx.op('registerSubscriptionAdapter', repr(c), nm(req), nm(prov), info)
-            comps.registerSubscriptionAdapter(c, req, prov, info=info)
+            form = rng.choice(['explicit', 'explicit', 'inferred', 'noevent'])
+            ctx.op('registerSubscriptionAdapter', repr(c), nm(req), nm(prov), info, form)
+            if form == 'inferred':
+                # required from __component_adapts__, provided from what the factory implements
+                implementer(prov)(c)
+                c.__component_adapts__ = req
+                comps.registerSubscriptionAdapter(c, info=info)
+            elif form == 'noevent':
+                comps.registerSubscriptionAdapter(c, req, prov, info=info, event=False)
+                noevent = True
+            else:
+                comps.registerSubscriptionAdapter(c, req, prov, info=info)
+            ctx.count('subscription_adapter_forms[%s]' % form)
             subs.append((nreq, prov, c))
-            accept = [['R']]
+            accept = [[]] if form == 'noevent' else [['R']]
         elif op == 'us':
             usec = rng.random() < .6
             if subs and rng.random() < 0.7:
@@ -393,10 +404,19 @@ def _run(ctx, rng, big, events):
                 req = nreq
                 if rng.random() < 0.5:
                     c = c0
-            ctx.op('registerHandler', repr(c), nm(req), info)
-            comps.registerHandler(c, req, info=info)
+            form = rng.choice(['explicit', 'explicit', 'inferred', 'noevent'])
+            ctx.op('registerHandler', repr(c), nm(req), info, form)
+            if form == 'inferred':
+                c.__component_adapts__ = req
+                comps.registerHandler(c, info=info)
+            elif form == 'noevent':
+                comps.registerHandler(c, req, info=info, event=False)
+                noevent = True
+            else:
+                comps.registerHandler(c, req, info=info)
+            ctx.count('handler_forms[%s]' % form)
             hand.append((nreq, c))
-            accept = [['R']]
+            accept = [[]] if form == 'noevent' else [['R']]
         elif op == 'uh':
             usec = rng.random() < .6
             if hand and rng.random() < 0.7:
@@ -431,6 +451,17 @@ def _run(ctx, rng, big, events):
         if events and op in ('ra', 'ua') and not noevent:
             if not describe_ok(events[-1], 'AdapterRegistration', provided=prov, name=name, required=nreq):
                 ctx.violation('event-describes-wrong-registration', dict(where, event=repr(events[-1].object)))
+        # a Registered event carries the factory and the info that were registered
+        if events and not noevent and op in ('ra', 'rs', 'rh') and isinstance(events[-1], zr.Registered):
+            ctx.ev()
+            ob_ = events[-1].object
+            if ob_.factory is not c or ob_.info != info:
+                ctx.violation('event-describes-wrong-registration', dict(where, event=repr(ob_), what='factory or info'))
+        if events and not noevent and op == 'ru' and isinstance(events[-1], zr.Registered):
+            ctx.ev()
+            ob_ = events[-1].object
+            if ob_.info != info or ob_.factory is not ufac.get((prov, name)):
+                ctx.violation('event-describes-wrong-registration', dict(where, event=repr(ob_), what='info or factory'))
         if events and op in ('rs', 'us'):
             if not describe_ok(events[-1], 'SubscriptionRegistration', provided=prov, required=nreq):
                 ctx.violation('event-describes-wrong-registration', dict(where, event=repr(events[-1].object)))
